@@ -23,7 +23,7 @@ EXPLANATION = ("Real TraceDiff.compare_traces / ops_diff (LabeledTrace.extract_o
                "events; diffs = test - control; the five classes are pairwise disjoint, cover every row and match their "
                "definitions; self-comparison gives only 'unchanged' and zero diffs. Non-trivial path = a name whose counts "
                "differ between the traces.")
-ASSUMPTIONS = ["WF host thread, disjoint steps, kernel.ts >= launch.ts", "selected iterations exist in the trace",
+ASSUMPTIONS = ["WF host thread, disjoint steps (kernel.ts >= launch.ts is NOT assumed)", "selected iterations exist in the trace",
                "JSON reading stubbed; process pool replaced by an in-process pool (map in input order)"]
 STUBS = ["hta.common.trace_parser.parse_trace_dict", "Trace._validate_trace_files", "multiprocessing pool", "plotly",
          "logging"]
@@ -118,7 +118,7 @@ def prep(ctx, tag, word, nsteps, nranks=1, same=False, step0=STEP0):
                                steps[b]["ts"] + steps[b]["dur"] <= steps[a]["ts"]))
         for x in items:
             if x["launch"] is not None:
-                ctx.assume(x["ts"] >= x["launch"]["ts"])
+                pass      # kernel.ts >= launch.ts is not assumed: the quantifier does not ask for causal consistency
 
         def host_iter(h, steps=steps):
             v = -1
